@@ -104,7 +104,9 @@ CLAIMED["C16"] = dict(
     text="Every history of <=4 (quick) / <=5 (thorough) operations over init/attach/detach/reinit/reset(soft,hard)/logger/section/label/flatten+relocate/10 program "
          "generators (Assembler, Builder, Compiler; incl. failing programs) on one recycled CodeHolder + emitter set, each followed by every final program, in 16 "
          "configurations (static vs dynamic arena, logger, validation, two heap fill patterns); sections, labels, relocations, fixups, address table and ids must equal "
-         "the same calls replayed on completely fresh objects; ASan/UBSan silent.",
+         "the same calls replayed on completely fresh objects; ASan/UBSan silent. Leg 2 (harness/c16_handlers.cpp): explicit-state BFS (depth 6 / 8) over "
+         "attach/detach/finalize/reinit and holder/emitter error-handler set/reset for Assembler, Builder, Compiler with a three-line ownership model; after every operation "
+         "a provoked error must reach exactly the handler in charge.",
     note="x86-32 not explored; init with explicit base not explored; histories are not merged (hidden residue is the subject).",
     technique="exhaustive enumeration of operation histories on the implementation, differential against fresh objects across configurations",
     design_ref="3/C16", engine="harness/c16_reuse.cpp")
@@ -114,7 +116,8 @@ CLAIMED["C18"] = dict(
     text="Explicit-state BFS (canonical-state dedup) over operation histories of Arena, ArenaVector (4 item types), ArenaHash, ArenaTree, ArenaList, ArenaBitSet, "
          "ArenaPool, String/StringTmp and all pairs of containers sharing one arena (heap and dirty static arenas, reset soft/hard), plus exhaustive sweeps (all tree "
          "insertion/removal orders for n<=7, all request sizes, all bit-vector primitive arguments, hash growth table); std:: reference models, structural invariants "
-         "and an arena partition invariant after every operation; ASan/UBSan are part of the oracle.",
+         "and an arena partition invariant after every operation; ASan/UBSan are part of the oracle. Arena::sformat for every output length 0..1100 (4200) on heap "
+         "and static-block arenas.",
     note="Depth bounds per part (quick 3-7, thorough 4-9); key/size alphabets are finite.",
     technique="explicit-state BFS over operation histories on the implementation with reference-model oracle",
     design_ref="3/C18", engine="harness/c18_containers.cpp")
